@@ -24,17 +24,20 @@ Relays == CASE Alterations = 1 -> Singles [] Alterations = 2 -> Pairs [] Alterat
 
 Init == ev = InitEvidence /\ tol \in {0, 1} /\ n = 0 /\ hist = <<>>
 
-Handle(r) ==
+\* d = the client first sends a dispatch request for the relay's application and chain to this node (an
+\* unauthenticated call that makes the node compute - and keep in its session cache - the session of the
+\* LATEST session height, whether or not the node belongs to it).  It must change nothing about the relay.
+Handle(r, d) ==
     LET o == Outcome(r, ev, tol) IN
     /\ n < MaxSteps
     /\ ev' = After(r, ev, tol)
     /\ n' = n + 1
-    /\ hist' = Append(hist, [relay |-> r, tol |-> tol, out |-> o, served |-> o = "ok",
+    /\ hist' = Append(hist, [relay |-> r, tol |-> tol, disp |-> d, out |-> o, served |-> o = "ok",
                              authorized |-> Authorized(r, tol), known |-> Known_C35_UnstakingApp(r, tol),
                              ev |-> EvView(ev', r), total |-> Total(ev')])
     /\ UNCHANGED tol
 
-Next == \E r \in Relays : Handle(r)
+Next == \E r \in Relays : \E d \in (IF r.sbh = LatestSession THEN BOOLEAN ELSE {FALSE}) : Handle(r, d)
 NextCover == Next /\ PrintT(ToJson(hist'))
 Spec == Init /\ [][Next]_vars
 
